@@ -308,7 +308,7 @@ Ltac seg L := let p := fresh "p" in let E := fresh "E" in
   match goal with |- context [mkReader (_ ++ ?tail) ?p0] => destruct (L tail p0) as [p E] end; [..|rewrite E; clear E; cbn [bind]].
 
 Theorem plus_roundtrip h prev scal rest pos :
-  wf_plus h -> prev_compatible prev (plus_format h) ->
+  wf_plus h -> p_type h = 0 \/ prev_compatible prev (plus_format h) ->
   exists pos', decode_picture (mkOpts false scal) prev (mkReader (enc_plus scal h ++ rest) pos)
                = Ok (Some (picture_of_plus scal h), mkReader rest pos').
 Proof.
@@ -353,7 +353,7 @@ Proof.
   seg (trpi_seg h); [exact Htrp|]. seg (bci_seg h).
   (* RPRP is needed only if the previous header transmitted a different format *)
   match goal with |- context [if false || ?X then Err EUnimplemented else _] =>
-    replace X with false by (symmetry; exact (rprp_not_needed _ _ Hprev)) end.
+    replace X with false by (symmetry; destruct Hprev as [Hi|Hp]; [rewrite Hi; reflexivity|exact (rprp_not_needed _ _ _ Hp)]) end.
   cbn [orb bind].
   rdn.
   (* TRB / DBQUANT *)
@@ -492,7 +492,7 @@ Proof.
   (* no format is transmitted: no resampling can be signalled *)
   replace (match prev with Some p4 => match format p4 with Some _ => false | None => false end | None => false end) with false
     by (destruct prev as [p4|]; [destruct (format p4)|]; reflexivity).
-  cbn [orb bind].
+  rewrite Bool.andb_false_r. cbn [orb bind].
   rdn.
   fold (plus_type (q_type h)).
   match goal with |- context [mkReader (_ ++ ?tail) ?p0] => destruct (pb0_seg h tail p0 Hty Htrb Hdbq) as [p5 E] end. rewrite E; clear E; cbn [bind].
